@@ -46,6 +46,8 @@ def norm_edge(e):
         e["script"] = {}
     e["rew"] = sorted(e["rew"])
     e["failed"] = sorted(e["failed"])
+    if "asis" not in e:
+        e["asis"] = e["dst"]
     if "due" in e["act"]:
         e["act"]["due"] = sorted(e["act"]["due"])
     e["sk"], e["dk"] = skey(e["src"]), skey(e["dst"])
@@ -234,6 +236,7 @@ UNIVERSES = {
     "FilterRefresh.mc.cfg": {"block": ["b1"], "allow": ["a1"]},
     "FilterRefresh.mck.cfg": {"block": ["b1"], "allow": ["a1"]},   # the same with the other parser policy
     "FilterRefresh.three.cfg": {"block": ["b1", "b2"], "allow": ["a1"]},
+    "FilterRefresh.seturl.cfg": {"block": ["b1"], "allow": ["a1"]},  # refused set_url (failing download) between refreshes
     "FilterRefresh.long.cfg": {"block": ["b1"], "allow": ["a1"]},    # rule lines of 4095 .. 65535 bytes
 }
 
@@ -316,11 +319,12 @@ class Graph:
         return {"id": n, "cfg": steps[0]["cfg"], "lists": self.uni["block"] + self.uni["allow"],
                 "block": self.uni["block"], "atoms": ["R1", "R2"], "steps": steps}
 
-    def tours(self, rng, maxlen, select=None):
+    def tours(self, rng, maxlen, select=None, terminal=lambda e: False):
         """Greedy walks that cover every selected edge (default: all); they may
         travel over any edge.  Files are never deleted, so states without a file
         are reachable from a fresh start only: a walk ends when nothing uncovered
-        is reachable, or when it gets long."""
+        is reachable, when it gets long, or after a `terminal` edge (one that is
+        known to leave today's code in a state the specification does not have)."""
         want = None if select is None else {e["eid"] for e in select}
         walks = []
         for ck in sorted(self.by_cfg):
@@ -350,6 +354,9 @@ class Graph:
                 fresh += 1
                 steps.append(e)
                 cur = e["dk"]
+                if terminal(e):
+                    walks.append(steps)
+                    cur, steps, fresh = init, [], 0
             if fresh:
                 walks.append(steps)
         res = []
@@ -371,6 +378,7 @@ def sumchg(e):
 
 def tour_json(t):
     return {"id": t["id"], "cfg": t["cfg"], "lists": t["lists"], "block": t["block"], "atoms": t["atoms"],
+            "go_on": t.get("go_on", False),
             "steps": [{"act": e["act"], "script": e["script"], "dst": proj(e["dst"]), "rew": e["rew"],
                        "sumchg": sumchg(e)} for e in t["steps"]]}
 
@@ -397,9 +405,29 @@ def run_tours(ctx, tours, tag, shards=SHARDS):
     return rows, summ
 
 
+KEY_SETURL = "failed-set-url-forgets-checksum"
+
+
 def classify_step(edge, row):
     """Narrow classification of a reproduced disagreement on one edge."""
-    return None   # no open known findings for C15
+    got = row["got"]
+    if (edge["act"]["a"] == "seturl" and row["diffs"] == ["sum"] and got["sumchg"] == [edge["act"]["list"]]
+            and sumchg(dict(edge, dst=edge["asis"])) == got["sumchg"] and not got["rew"]):
+        # nothing but the remembered checksum of that list changed, as in SetURLFailedAsIs
+        return KEY_SETURL
+    return None
+
+
+def consequence(g, edge):
+    """For a refused set_url on list l: the forced refresh of l that follows with
+    content whose checksum is unchanged (must not be rewritten)."""
+    l = edge["act"]["list"]
+    for e in g.out[edge["ck"]].get(edge["dk"], []):
+        a = e["act"]
+        if (a["a"] == "refresh" and a["mode"] == "forced" and l in e["script"] and e["script"][l]["k"] == "ok"
+                and l not in e["rew"] and l not in e["failed"] and e["src"]["sum"][l]):
+            return e
+    return None
 
 
 def what_step(edge, row):
@@ -416,14 +444,14 @@ def refresh_replay(ctx, edges, uni, tag, rng, budget=None):
     moves = [e for e in edges if e["act"]["a"] != "boot"]
     if budget is not None and len(moves) > budget:
         select = rng.sample(moves, budget)
-    tours = g.tours(rng, 250, select)
+    tours = g.tours(rng, 250, select, terminal=lambda e: e["act"]["a"] == "seturl")
     rows, summ = run_tours(ctx, tours, tag)
     by_id = {t["id"]: t for t in tours}
     bad = [r for r in rows if r.get("kind") == "bad"]
     skipped = [r for r in rows if r.get("kind") == "skip"]
     truncated = sum(r.get("lost", 0) for r in rows if r.get("kind") == "truncated")
     res = {"tours": len(tours), "steps": summ["steps"], "bad": len(bad), "skipped": len(skipped),
-           "truncated": truncated, "known": 0, "not_rerun": 0, "contact_mismatch": 0, "flaky": 0,
+           "truncated": truncated, "known": 0, "known_with_consequence": 0, "not_rerun": 0, "contact_mismatch": 0, "flaky": 0,
            "planned": sum(len(t["steps"]) for t in tours),
            "selected": len(moves) if select is None else len(select), "edges": len(moves),
            "nontrivial": sum(1 for e in (moves if select is None else select)
@@ -440,23 +468,36 @@ def refresh_replay(ctx, edges, uni, tag, rng, budget=None):
     todo, sampled = [], collections.Counter()
     for r in bad:
         edge = by_id[r["tour"]]["steps"][r["step"]]
-        sig = (edge["act"].get("mode"), tuple(sorted({d.split(":")[0] for d in r["diffs"]})))
+        key = classify_step(edge, r)
+        sig = key or (edge["act"].get("mode"), tuple(sorted({d.split(":")[0] for d in r["diffs"]})))
         sampled[sig] += 1
         if sampled[sig] > 12:
             res["not_rerun"] += 1
             continue
-        todo.append((r, edge, classify_step(edge, r)))
+        todo.append((r, edge, key))
     if len(todo) > 400:
         raise vlib.Inconclusive("%d disagreements to reproduce one by one (first: %s)" % (len(todo), what_step(todo[0][1], todo[0][0])[:600]))
 
     def rerun(items, stage):
-        iso = [g.tour(n, steps) for n, (steps, _) in enumerate(items)]
+        # a refused set_url that only changes the remembered checksum is followed,
+        # in the isolated run, by the refresh that shows what that leads to
+        extra = [consequence(g, item[1]) if item[2] == KEY_SETURL else None for _, item in items]
+        iso = [dict(g.tour(n, steps + ([x] if x else [])), go_on=bool(x)) for n, ((steps, _), x) in enumerate(zip(items, extra))]
         rows2, _ = run_tours(ctx, iso, "%s_iso%d" % (tag, stage))
         hit = {}
         for r2 in rows2:
             if r2.get("kind") == "bad":
                 hit.setdefault((r2["tour"], r2["step"]), r2)
-        return [hit.get((n, len(steps) - 1)) for n, (steps, _) in enumerate(items)]
+        out = []
+        for n, ((steps, item), x) in enumerate(zip(items, extra)):
+            r2 = hit.get((n, len(steps) - 1))
+            if r2 is not None and x is not None:
+                c = hit.get((n, len(steps)))
+                r2["consequence"] = {"then": {"act": x["act"], "script": x["script"]},
+                                     "unchanged_content_rewritten": bool(c and "rew" in c["diffs"]),
+                                     "diffs": c["diffs"] if c else []}
+            out.append(r2)
+        return out
 
     short = [(g.shortest_to(edge), (r, edge, key)) for r, edge, key in todo]
     got = rerun(short, 1)
@@ -485,11 +526,13 @@ def confirm(ctx, res, tag, g, steps, item):
         res["contact_mismatch"] += 1
         return
     rec = {"kind": "tour", "universe": tag, "cfg": edge["cfg"], "lists": g.uni["block"] + g.uni["allow"],
-           "block": g.uni["block"], "diffs": r["diffs"], "observed": r["got"],
+           "block": g.uni["block"], "diffs": r["diffs"], "observed": r["got"], "consequence": r.get("consequence"),
            "steps": [{"act": e["act"], "script": e["script"], "dst": proj(e["dst"]), "rew": e["rew"],
                       "sumchg": sumchg(e)} for e in steps]}
     if ctx.disagreement(key, rec, what_step(edge, r)) == "known":
         res["known"] += 1
+        if (r.get("consequence") or {}).get("unchanged_content_rewritten"):
+            res["known_with_consequence"] += 1
 
 
 def refresh_trace(ctx, cosm):
@@ -613,15 +656,25 @@ def run(ctx):
         raise vlib.Inconclusive("vacuous: no edge stores a list with a long line")
     resl = refresh_replay(ctx, edgesl, UNIVERSES["FilterRefresh.long.cfg"], "long", rng, budget=1200 if ctx.quick else None)
 
+    # refused set_url between refreshes
+    edgess = refresh_edges(ctx, "FilterRefresh.seturl.cfg", coverage=False)
+    if not any(e["act"]["a"] == "seturl" and e["src"]["sum"][e["act"]["list"]] for e in edgess):
+        raise vlib.Inconclusive("vacuous: no refused set_url on a list that has content")
+    ress = refresh_replay(ctx, edgess, UNIVERSES["FilterRefresh.seturl.cfg"], "seturl", rng)
+    negs = ctx.tlc("FilterRefresh", "FilterRefresh.seturlasis.cfg", workers=1, timeout=600, expect_violation=True)
+    if negs["violated"] != "InvCoherent":
+        raise vlib.Inconclusive("FilterRefresh.seturlasis.cfg no longer violates InvCoherent: the negative control lost its meaning")
+    ctx.tlc_runs[-1]["violated"] = "InvCoherent (expected: negative control, roll-back forgets the checksum)"
+
     # ---- refresh half, direction B
     rrows, verdict = refresh_trace(ctx, cosm)
     if verdict["odd"]:
         raise vlib.Inconclusive("refresh trace: harness and specification disagree on the contacted lists at lines %s" % verdict["odd"][:5])
     resb = reproduce_trace_lines(ctx, rrows, verdict, cosm)
 
-    tot = {k: res2[k] + res3[k] + resl[k] for k in res2}
+    tot = {k: res2[k] + res3[k] + resl[k] + ress[k] for k in res2}
     steps_a = tot["steps"]
-    n_edges = len(edges) + len(edges3) + len(edgesl)
+    n_edges = len(edges) + len(edges3) + len(edgesl) + len(edgess)
     skipped = tot["skipped"]
     contact = tot["contact_mismatch"]
     if skipped or contact:
@@ -652,9 +705,11 @@ def run(ctx):
         "refresh_bad_steps": tot["bad"], "refresh_flaky": tot["flaky"] + resb["flaky"],
         "refresh_bad_steps_not_rerun_alike": tot["not_rerun"],
         "refresh_steps_lost_after_a_disagreement": tot["truncated"],
-        "truncated_by_known_finding": 0,
+        "truncated_by_known_finding": ress["truncated"] if ress["known"] else 0,
+        "refresh_known_finding_steps": tot["known"], "refresh_known_finding_steps_shown_to_rewrite_unchanged_content": tot["known_with_consequence"],
         "refresh_trace_steps": trace_steps, "refresh_trace_rejected": len(verdict["bad"]),
         "negative_controls": ["FilterRefresh.asis.cfg (pre-fix early return before the engine rebuild) violates FailureIsNoOp",
+                              "FilterRefresh.seturlasis.cfg (roll-back of a refused set_url forgets the checksum) violates InvCoherent",
                               "RuleList.modes.cfg (treatment of #-lines depends on the title mode) violates NormalFormIsFixedPoint"],
         "exhaustive": not ctx.quick, "samples": samples,
     }
